@@ -14,6 +14,14 @@ thread_local! {
     static CTX: RefCell<Option<Arc<dyn ThreadCtx>>> = const { RefCell::new(None) };
     static LAST_PANIC_LOC: RefCell<Option<String>> = const { RefCell::new(None) };
     static IN_OP: Cell<bool> = const { Cell::new(false) };
+    static INPUT_MODIFIED: Cell<bool> = const { Cell::new(false) };
+}
+
+pub fn set_input_modified() {
+    INPUT_MODIFIED.with(|f| f.set(true));
+}
+pub fn take_input_modified() -> bool {
+    INPUT_MODIFIED.with(|f| f.replace(false))
 }
 
 /// fd on which harness-level diagnostics are written (the process's original stderr, saved before
